@@ -226,6 +226,9 @@ const ALPHA_QUICK: &[(&str, &str)] = &[
     // a dot inside the file stem (dates, versions)
     ("v1.2.md", ""),
     ("x.txt", "X"),
+    // an upper-case extension is not a note (the library model reads lower-case `.md` only): it
+    // must stay untouched although its text looks like a note
+    ("u.MD", "M"),
     ("d/y.png", "B"),
     (".iwe/config.toml", "CD"),
 ];
@@ -240,7 +243,7 @@ const ALPHA_MORE: &[(&str, &str)] = &[
     ("k0.md", "T0"),
     ("empty.md", "TE"),
     ("bad.md", "B"),
-    ("u.MD", "M"),
+    ("d/w.Md", "M"),
     (".md", "M"),
     ("a.md.bak", "M"),
     ("a.md.tmp", "M"),
